@@ -94,7 +94,10 @@ def c02_stages(tier):
           # terminals with a constant component that lies exactly on a threshold of the right operand (constant pulled-back predicates)
           AT('compose-z', 'MC_AffTree_compose_z.cfg'), AT('compose-zd', 'MC_AffTree_compose_zd.cfg'), AT('compose-d3', 'MC_AffTree_compose_d3.cfg'),
           # compose-k4r: terminals whose components coincide (pulled-back rows of a two-row predicate become equal or proportional)
-          AT('compose-k4r', 'MC_AffTree_compose_k4r.cfg'), DR('compose')]
+          AT('compose-k4r', 'MC_AffTree_compose_k4r.cfg'),
+          # compose-lt: triangular / diagonal terminal maps in the right operand; compose-1d: one input coordinate (the root predicate x <= 0
+          # has the coefficients of the identity map)
+          AT('compose-lt', 'MC_AffTree_compose_lt.cfg'), AT('compose-1d', 'MC_AffTree_compose_1d.cfg'), DR('compose')]
     if tier == 'thorough':
         st += [AT('compose-t', 'MC_AffTree_compose_t.cfg'), AT('compose-dimt', 'MC_AffTree_compose_dimt.cfg'),
                AT('compose-k4t', 'MC_AffTree_compose_k4t.cfg')]
@@ -132,6 +135,12 @@ def regions_post(scripts, seed, tier):
         if i % 5 == 2 and len(s.get('lhs', [])) >= 2:
             c = dict(s)
             c['elim'] = True
+            c.pop('exp', None)
+            extra.append(c)
+        if i % 5 == 4 and len(s.get('lhs', [])) >= 2:
+            # a full traversal, then update_node on the root predicate, then the observed traversals
+            c = dict(s)
+            c['upd'] = True
             c.pop('exp', None)
             extra.append(c)
     return out + extra
@@ -264,7 +273,7 @@ def history_random(seed, tier):
 D_PRED2 = [_aff([[1, 0]], [0]), _aff([[0, 1]], [1]), _aff([[1, 1]], [1]), _aff([[1, -1]], [0]), _aff([[-1, 0]], [0]), _aff([[1, 0]], [-1]),
            _aff([[-1, -1]], [-2]), _aff([[0, 1]], [0]), _aff([[2, 1]], [1]), _aff([[0, -1]], [-2])]
 D_TERM22 = [_aff([[1, 0], [0, 1]], [0, 0]), _aff([[0, 1], [1, 0]], [1, -2]), _aff([[2, 0], [0, -1]], [0, -1]), _aff([[0, 0], [0, 1]], [0, 0]),
-            _aff([[1, 1], [1, -1]], [0, 1]), _aff([[1, 0], [0, 1]], [0, 1])]
+            _aff([[1, 1], [1, -1]], [0, 1]), _aff([[1, 0], [0, 1]], [0, 1]), _aff([[1, 0], [2, 1]], [0, 1])]
 NOAFF = {'m': [], 'b': [], 'q': 1}
 
 
@@ -500,6 +509,8 @@ def format_tree_post(scripts, seed, tier):
 def c19_stages(tier):
     return [Stage('format-rows', 'Trace_Format', mc=('MC_Format', 'MC_Format_l2.cfg' if tier == 'thorough' else 'MC_Format_l1.cfg'), shard_events=1000, mc_workers=12),
             Stage('format-trees', 'Trace_Format', mc=('MC_AffTree', 'MC_AffTree_format_q.cfg'), shard_events=300, mc_workers=12, post=format_tree_post),
+            # terminals R^2 -> R^1 that coincide with predicates (a decision and a terminal next to each other hold the same matrix and bias)
+            Stage('format-trees-p', 'Trace_Format', mc=('MC_AffTree', 'MC_AffTree_format_p.cfg'), shard_events=300, mc_workers=12),
             # K = 4: Display of nodes with up to four children (DOT export exists for binary trees only)
             Stage('format-trees-k4', 'Trace_Format', mc=('MC_AffTree', 'MC_AffTree_format_k4.cfg'), shard_events=300, mc_workers=12)]
 
